@@ -714,8 +714,11 @@ def scen_groups(g, n):
             if e not in seen:
                 seen.add(e); L.append('insert 1 %s 7' % hx(e))
         others = others + g.pool(2, vocab)
+        cloned = r.random() < 0.4
+        if cloned:
+            L.append('clone 0 2')      # a copy of the grouped router must report the same expansions
         for p in g.paths_for([it] + others, 12):
-            L += ['search 0 ' + hx(p), 'search 1 ' + hx(p)]
+            L += ['search 0 ' + hx(p), 'search 1 ' + hx(p)] + (['search 2 ' + hx(p)] if cloned else [])
         L.append('delete 0 %s' % hx(t))
         out += L + ['end']
     return out
